@@ -17,6 +17,6 @@ CONSTANTS
   Plan = "T"
   ExportMod = 0
   ExportSeed = 0
-  Repaired = {}
+  Repaired = {"min_exclusive", "dur_trunc_ms", "v2_max_exclusive", "values_scope_strip", "unknown_200", "short_id"}
 INVARIANTS MechEqDef QuirksExplain Laws
 CHECK_DEADLOCK FALSE
